@@ -118,6 +118,10 @@ def o_cross(rec: Recorder, case, soft=False):
         if lh.identify(hs) is not True:
             rec.fail(f"C20/identify-own-format/{pair}/{label}", f"libpass {PAIRS[pair][0]} does not identify a {label} hash of its format", "cross", case, False, True, soft=soft)
             return
+        # same format, same cost (the implicit sha-crypt form means 5000 rounds): nothing to update
+        if lh.needs_update(hs) is not False:
+            rec.fail(f"C20/needs-update-same-cost/{pair}/{label}", f"libpass needs_update() is True for a {label} hash of the hasher's own format and cost", "cross", case, True, False, soft=soft)
+            return
     # needs_update
     if lh.needs_update(lhash) is not False:
         rec.fail(f"C20/needs-update-own/{pair}", "libpass needs_update() is True for its own fresh hash", "cross", case, True, False, soft=soft)
